@@ -125,7 +125,30 @@ def run(ctx):
     if SK not in P.adts:
         raise CheckerError("C17-R7: push::sort::SortKey not found")
     readf = set()
-    for g in P.family(ms):
+    fam = {}
+    work = list(P.family(ms))
+    smod = ms.id.rsplit("::", 2)[0] + "::"
+    while work:
+        g = work.pop()
+        if g.id in fam:
+            continue
+        fam[g.id] = g
+        for bi_, t_ in g.calls():
+            c_ = callee_name(t_)
+            if c_ in P.fns and c_.startswith(smod) and c_ not in fam and P.fns[c_].impl_self is None:
+                work.extend(P.family(P.fns[c_]))      # free helper functions of the module (a conversion moved out of the closure)
+            for a_ in t_["args"]:
+                # a helper passed by name (`.map(to_spill_key)`) is an operand constant, not a call of this body
+                if a_[0] == "fn" and isinstance(a_[1], str):
+                    for cand in (a_[1], a_[1].split("<")[0]):
+                        if cand in P.fns and cand.startswith(smod) and cand not in fam:
+                            work.extend(P.family(P.fns[cand]))
+    TK = "spill::external_sort::SortKey"
+    conv = [g for g in fam.values() if g.id == ms.id or TK in g.local_ty(0)]
+    ctx.floor("R7", len(conv) - 1, 1, "functions / closures that produce the external sort's key type from the operator's keys")
+    for g in conv:
+        if g.id == ms.id:
+            continue        # the body of maybe_spill itself also sorts the buffer with the full keys; only the producers of the external keys count
         for b in g.blocks:
             if b["cl"]:
                 continue
